@@ -37,6 +37,11 @@ RULE = ("compounds: Hypothesis draws a flat {atom: count} dict (1-8 distinct ato
         "auto-filled density, a mix_by_weight/mix_by_volume mixture (composition and density as served) - called with "
         "density=, natural_density= or no density keyword; the reference is evaluated at the density that applies, a "
         "missing density must raise AssertionError, and (structure, density, name) of the object must be unchanged. "
+        "private table: one private PeriodicTable per process, customised as in guide/customizing.rst (masses and "
+        "densities rescaled to H[1] = 1, b_c of 8 atoms x 1.5); compounds of ITS atoms as {atom: n} dict, Formula object "
+        "(with or without own density), Formula.neutron_sld(), bare atom, atom.neutron.scattering/.sld - all without "
+        "table= - and as string with table=T; reference from that table's masses and neutron records; the public "
+        "table's answer for the same compound is identical before and after and follows the public reference. "
         "no-data: a generated compound plus one atom without b_c must give exactly (None, None, None).")
 ASSUMPTIONS = [
     "per-atom b_c, absorption, total and mass are the served fields (C06/C07 tie them to the raw tables); ion mass "
@@ -48,7 +53,11 @@ ASSUMPTIONS = [
     "sigma_i = max(sigma_s - sigma_c, 0): the documented difference, clipped because C04 says it is never negative",
     "Ra and Ra-226 (b_c tabulated, no element density) are neither 'with' nor 'without' neutron data: not generated",
     "a np.float32 wavelength/energy scalar is judged at its float32 value with rel 1e-6 (numpy keeps float32 in the "
-    "outputs proportional to it); all other argument types at rel 1e-10",
+    "outputs proportional to it); with an energy dependent atom the library may in addition evaluate the table "
+    "anywhere within 5e-7 (relative) of the exact wavelength (float32 conversion), so an output is accepted inside "
+    "the range of the reference over that interval widened by 1e-6 x (|value| + operand scale); all other argument "
+    "types at rel 1e-10",
+    "a private table customised by assigning b_c and b_c_complex of an atom together is a legitimate table",
     "a density= / natural_density= keyword is the mass density of the calculation (parameter list of the "
     "neutron_scattering docstring) and therefore replaces a density stored on a Formula object passed as compound; "
     "with no keyword the object's own density applies; the docstring's ':Raises: AssertionError: density is missing' "
@@ -260,6 +269,96 @@ def check_formula_object(ctx, v):
                         "(structure, density, name) %r -> %r" % (before, after), case)
 
 
+# ----------------------------------------------------------------------
+# compounds of a private, customised table
+PRIVATE_ROUTES = {"dict": ["dict", "formula-object", "formula-own-density", "method"],
+                  "tree": ["string-table", "formula-object", "formula-own-density", "method"],
+                  "atom": ["atom", "atom-route"]}
+
+
+def check_private(ctx, v):
+    """A compound made of the atoms of a private table (masses rescaled to H[1] = 1, some b_c changed)
+    is calculated from THAT table's masses and neutron data, whether it arrives as {atom: n} dict,
+    Formula object, bare atom, Formula.neutron_sld() or as a string with table=T; the public table
+    gives the same answers before and afterwards."""
+    E, P = ng.env(), ng.penv()
+    pt, np, T, RT = E["pt"], E["np"], P["table"], P["ref"]
+    c = v["comp"]
+    kind = c["kind"]
+    routes = PRIVATE_ROUTES[kind]
+    route = routes[v["route"] % len(routes)]
+    wkw, lams, shape = ng.build_wavelength(v["wl"])
+    rel = ng.wl_rel(v["wl"]["form"])
+    how, rho_arg = v["dens"]
+    if kind == "atom":
+        t_atom, p_atom = ng.resolve(T, c["spec"]), ng.resolve(E["table"], c["spec"])
+        comp, specs = {ng.spec_key(E["pool"], c["spec"]): 1.0}, [c["spec"]]
+        pub_obj, desc_c = p_atom, str(t_atom)
+    else:
+        obj, comp, specs, _ = ng.build_compound(c, table=T)
+        pub_obj = ng.build_compound(c)[0]
+        desc_c = ng.describe(c)
+    dkw = {how: rho_arg}
+    rho = rho_arg if how == "density" else RT.density_from_natural(comp, rho_arg)
+    edep = ng.has_edep(comp)
+    tag = "edep" if edep else "ordinary"
+    custom = any((z, a) in [(T.symbol(sym).number, aa) for sym, aa in ng.CUSTOM_BC] for z, a, ch in comp)
+    desc = {"compound": desc_c, "route": route, "density": dkw, "wavelength": v["wl"]}
+    ctx.case((str(desc),), nontrivial=True, sample=desc,
+             cls=ng.comp_classes(specs, comp) + ["private:" + route, "private:custom-b_c:" + str(custom), "wl:" + v["wl"]["form"]])
+    case = dict(v, kind="private")
+    pub_kw = {} if kind == "atom" else {"density": 1.0 + rho_arg}
+    pub_before = ng.flatten(pt.neutron_scattering(pub_obj, wavelength=lams[0], **pub_kw))
+
+    prefix = "c03:private:" + route
+    full = None
+    if route == "dict":
+        full = pt.neutron_scattering(obj, **dict(dkw, **wkw))
+        sld = pt.neutron_sld(obj, **dict(dkw, **wkw))
+    elif route == "string-table":
+        full = pt.neutron_scattering(obj, table=T, **dict(dkw, **wkw))
+        sld = pt.neutron_sld(obj, table=T, **dict(dkw, **wkw))
+    elif route == "formula-object":
+        f = pt.formula(obj, table=T)
+        full = pt.neutron_scattering(f, **dict(dkw, **wkw))
+        sld = pt.neutron_sld(f, **dict(dkw, **wkw))
+    elif route == "formula-own-density":
+        f = pt.formula(obj, table=T, **dkw)
+        full = pt.neutron_scattering(f, **wkw)
+        sld = pt.neutron_sld(f, **wkw)
+    elif route == "method":
+        f = pt.formula(obj, table=T, **dkw)
+        sld = f.neutron_sld(**wkw)
+    elif route == "atom":
+        rho = t_atom.density
+        full = pt.neutron_scattering(t_atom, **wkw)
+        sld = pt.neutron_sld(t_atom, **wkw)
+    else:                                               # the element / isotope queried directly
+        rho = t_atom.density
+        wl_only = {"wavelength": wkw["wavelength"]} if "wavelength" in wkw else \
+            {"wavelength": E["nsf"].neutron_wavelength(wkw["energy"])}
+        full = t_atom.neutron.scattering(**wl_only)
+        sld = t_atom.neutron.sld(**wl_only)
+    if full is not None:
+        got = ng.flatten(full)
+        for o in OUTPUTS:
+            ng.check_shape(prefix, o, got[o], shape, case)
+        ng.compare_outputs(prefix, got, comp, rho, lams, case, tag, rel=rel, ref=RT)
+    if sld is None or any(x is None for x in sld):
+        raise Violation(prefix + ":none", "sld = %r for a compound whose atoms all have neutron data" % (sld,), case)
+    ng.compare_outputs(prefix + ":sld", dict(zip(OUTPUTS[:3], sld)), comp, rho, lams, case, tag,
+                       outputs=OUTPUTS[:3], rel=rel, ref=RT)
+
+    # the public table still gives its own answers
+    pub_after = ng.flatten(pt.neutron_scattering(pub_obj, wavelength=lams[0], **pub_kw))
+    for o in OUTPUTS:
+        if not float(pub_before[o]) == float(pub_after[o]):
+            raise Violation("c03:private:public-changed", "public %s of %s was %r before and %r after the private-table "
+                            "calculation" % (o, desc_c, pub_before[o], pub_after[o]), case)
+    pub_rho = pub_obj.density if kind == "atom" else pub_kw["density"]
+    ng.compare_outputs("c03:private:public", pub_after, comp, pub_rho, lams[:1], case, tag)
+
+
 def check_nodata(ctx, v):
     E = ng.env()
     pt = E["pt"]
@@ -399,6 +498,20 @@ def task_formula_objects(ctx, n):
     ctx.search("formula-objects", strat_formula_object(), check_formula_object, n)
 
 
+def strat_private():
+    E = ng.env()
+    single = st.fixed_dictionaries({"kind": st.just("atom"), "spec": st.sampled_from(E["with_data"])})
+    dens = st.tuples(st.sampled_from(["density", "density", "natural_density"]), ng.density_value()).map(list)
+    return st.fixed_dictionaries({"comp": st.one_of(ng.flat_compound(max_atoms=5), ng.tree_compound(depth=2), single),
+                                  "route": st.integers(0, 11), "dens": dens, "wl": ng.wavelength_arg(max_len=4)})
+
+
+def task_private(ctx, n):
+    ng.env()
+    ng.penv()
+    ctx.search("private-table", strat_private(), check_private, n)
+
+
 def task_nodata(ctx, n):
     E = ng.env()
     nd = E["specs"]["nodata"]
@@ -443,12 +556,14 @@ def tasks(tier):
                 ("compounds-d", task_compounds, dict(n=600, depth=3)),
                 ("compounds-e", task_compounds, dict(n=600, depth=1)),
                 ("formula-objects", task_formula_objects, dict(n=600)),
+                ("private-table", task_private, dict(n=600)),
                 ("nodata", task_nodata, dict(n=300)),
                 ("sweep-atoms-0", task_sweep_atoms, dict(part=0, parts=2)),
                 ("sweep-atoms-1", task_sweep_atoms, dict(part=1, parts=2)),
                 ("sweep-tables", task_sweep_tables, dict())]
     out = [("compounds-%d" % k, task_compounds, dict(n=12000, depth=1 + k % 3)) for k in range(13)]
     out += [("formula-objects-%d" % k, task_formula_objects, dict(n=12000)) for k in range(2)]
+    out += [("private-table", task_private, dict(n=12000))]
     out += [("nodata", task_nodata, dict(n=5000)),
             ("sweep-atoms-0", task_sweep_atoms, dict(part=0, parts=1)),
             ("sweep-tables", task_sweep_tables, dict())]
@@ -463,6 +578,8 @@ def replay(ctx, case):
         check_nodata(ctx, case)
     elif k == "formula-object":
         check_formula_object(ctx, case)
+    elif k == "private":
+        check_private(ctx, case)
     elif k == "atom":
         check_atom_route(ctx, case["spec"])
     elif k == "table":
